@@ -28,7 +28,9 @@ DEFAULTS = ["0", "7", "1234", "12345678901234567890", "'a'", "''", "'A b C'", "N
             # PostgreSQL (pg_dump) casts, incl. a cast to a two-word type
             "'new'::character varying", "'x'::text", "0::numeric", "'a b'::character varying",
             # calls: several arguments, nested, schema-qualified, and pg_dump's serial default (a cast INSIDE the call)
-            "to_date('01','DD')", "s9.f(1, 2)", "coalesce(g(1), 0)", "uuid_generate_v4()", "nextval('s9.q'::regclass)"]
+            "to_date('01','DD')", "s9.f(1, 2)", "coalesce(g(1), 0)", "uuid_generate_v4()", "nextval('s9.q'::regclass)",
+            # forms the lexer / default grammar does not reach (known findings): a signed decimal, SSMS's double parentheses, prefixed literals
+            "-1.5", "((0))", "N'x'", "b'0'"]
 OPTS = ["NN", "NULL", "DEF", "PK", "UQ", "REF", "UQK"]  # UQK = the MySQL spelling UNIQUE KEY
 CONTRA = [{"NN", "NULL"}, {"NULL", "PK"}, {"UQ", "UQK"}]
 REFS = ["REFERENCES o(x)", "REFERENCES o (x)", "REFERENCES s9.o(x)", "REFERENCES o(key)", "REFERENCES orders (order)", "REFERENCES o(comment)",
@@ -220,6 +222,14 @@ def features(case):
         f.append("default:cast-inside-call")
     if case.get("fam") == "A" and "DEF" in case.get("opts", []) and re.search(r"\w\(\w+\(.*\)\s*,", DEFAULTS[case["default"]]):
         f.append("default:nested-call-followed-by-argument")
+    if case.get("fam") == "A" and "DEF" in case.get("opts", []):
+        dv = DEFAULTS[case["default"]]
+        if re.fullmatch(r"[-+]\d+\.\d+", dv):
+            f.append("default:signed-decimal")
+        if dv.startswith("(("):
+            f.append("default:double-parenthesised")
+        if re.fullmatch(r"[A-Za-z_]\w*'[^']*'", dv):
+            f.append("default:prefixed-literal")
     return f
 
 
